@@ -37,7 +37,7 @@ pub fn spawn(dir: &Path, args: &[&str], stdin: &[u8], timeout_ms: u64) -> ProcOu
 /// `fsize`: a file size limit (RLIMIT_FSIZE, in bytes) in force in the child, with SIGXFSZ ignored,
 /// so that a write to a regular file beyond that many bytes fails with EFBIG after a short write —
 /// the way a full disk does. Pipes (the child's stdout/stderr) are not affected.
-pub fn spawn_limited(dir: &Path, args: &[&str], stdin: &[u8], timeout_ms: u64, fsize: Option<u64>) -> ProcOut {
+pub fn spawn_limited<S: AsRef<std::ffi::OsStr>>(dir: &Path, args: &[S], stdin: &[u8], timeout_ms: u64, fsize: Option<u64>) -> ProcOut {
     use std::os::unix::process::CommandExt;
     let mut cmd = Command::new(lace_bin());
     cmd.args(args)
@@ -185,6 +185,24 @@ pub fn run_c06(o: &crate::Opts) {
             if i % o.nshards == o.shard {
                 corpus.push(b);
             }
+        }
+    }
+    // file names that are not valid UTF-8 (in the extension, in the stem): an error exit or a
+    // normal run, never a crash
+    if o.shard == 1 % o.nshards {
+        use std::os::unix::ffi::OsStrExt;
+        let names: [(&[u8], i32); 5] = [(b"n1.\xff", 1), (b"n2.l\xffc3", 1), (b"n\xff3.lc3", 0), (b"n\xfe4.obj", 0), (b"n\xff5.asm", 0)];
+        for (name, expect) in names {
+            let os = std::ffi::OsStr::from_bytes(name);
+            let content: &[u8] = if name.ends_with(b".asm") { b"halt\n" } else { &[0x30, 0x00, 0xF0, 0x25] };
+            std::fs::write(dir.join(os), content).unwrap();
+            let out = spawn_limited(&dir, &[std::ffi::OsStr::new("run"), os, std::ffi::OsStr::new("--minimal")], &[], 10000, None);
+            let ok = out.status == Some(expect);
+            sink.put(
+                &format!("Z06 {} {}", hex(name), hex(content)),
+                &if ok { "holds".to_string() } else { format!("differs: `lace run` on a file whose name is not valid UTF-8: status {:?}, expected {}", out.status, expect) },
+            );
+            let _ = std::fs::remove_file(dir.join(os));
         }
     }
     // programs that exactly fill memory up to the implicit HALT at 0xFFFF, one word less, one more
@@ -607,9 +625,18 @@ pub fn run_c07(o: &crate::Opts) {
 
 /// dest kinds: `absent`, `pre:<hex>`, `devfull`, `nodir`
 fn obs_c08(dir: &Path, src: &str, stack: bool, dest: &str, lim: Option<u64>) -> String {
+    use std::os::unix::ffi::OsStrExt;
     std::fs::write(dir.join("s.asm"), src).unwrap();
-    let out = dir.join("out.lc3");
-    let _ = std::fs::remove_file(&out);
+    // `nu8:<kind>`: the destination's file name is not valid UTF-8 (printing it must not make the
+    // command fail after the object file has been written)
+    let (nu8, dest) = match dest.strip_prefix("nu8:") {
+        Some(d) => (true, d),
+        None => (false, dest),
+    };
+    let out_name: std::ffi::OsString = if nu8 { std::ffi::OsStr::from_bytes(b"out\xff\xfe.lc3").to_owned() } else { "out.lc3".into() };
+    let out = dir.join(&out_name);
+    let _ = std::fs::remove_file(dir.join(std::ffi::OsStr::from_bytes(b"out\xff\xfe.lc3")));
+    let _ = std::fs::remove_file(dir.join("out.lc3"));
     let dest_path: String = if dest == "devfull" {
         "/dev/full".into()
     } else if dest == "nodir" {
@@ -620,9 +647,11 @@ fn obs_c08(dir: &Path, src: &str, stack: bool, dest: &str, lim: Option<u64>) -> 
         }
         "out.lc3".into()
     };
-    let mut a = vec!["compile", "s.asm", dest_path.as_str()];
+    let dest_os: std::ffi::OsString = if nu8 && dest_path == "out.lc3" { out_name.clone() } else { dest_path.clone().into() };
+    let mut a: Vec<&std::ffi::OsStr> = vec!["compile".as_ref(), "s.asm".as_ref(), dest_os.as_os_str()];
     if stack {
-        a.extend_from_slice(&["-f", "stack"]);
+        a.push("-f".as_ref());
+        a.push("stack".as_ref());
     }
     let k = spawn_limited(dir, &a, &[], 20000, lim);
     // anything left behind next to the destination (temporary files)
@@ -631,7 +660,7 @@ fn obs_c08(dir: &Path, src: &str, stack: bool, dest: &str, lim: Option<u64>) -> 
             rd.filter_map(|e| e.ok())
                 .filter(|e| {
                     let n = e.file_name();
-                    n != "s.asm" && n != "out.lc3"
+                    n != "s.asm" && n != "out.lc3" && n != out_name
                 })
                 .count()
         })
@@ -686,7 +715,7 @@ pub fn run_c08(o: &crate::Opts) {
     // small program (object file: 6 bytes), destination absent / shorter / longer than the object file
     if o.shard == 0 {
         let src = "add r0 r0 #1\nhalt\n";
-        for dest in ["absent", "pre:0102", "pre:a1a2a3a4a5a6a7a8a9aaabacadaeaf"] {
+        for dest in ["absent", "pre:0102", "pre:a1a2a3a4a5a6a7a8a9aaabacadaeaf", "nu8:absent", "nu8:pre:0102"] {
             for k in 0..=8u64 {
                 let obs = obs_c08(&dir, src, false, dest, Some(k));
                 *kinds.entry(format!("limit-sweep:{}", obs.split(' ').next().unwrap())).or_default() += 1;
@@ -741,6 +770,8 @@ pub fn run_c08(o: &crate::Opts) {
             _ => "nodir".to_string(),
         };
         let stack = (force_stack && i % 5 != 4) || rng.chance(1, 3);
+        // one destination in eight (regular-file kinds) has a name that is not valid UTF-8
+        let dest = if (dest == "absent" || dest.starts_with("pre:")) && rng.chance(1, 4) { format!("nu8:{}", dest) } else { dest };
         let obs = obs_c08(&dir, &src, stack, &dest, lim);
         *kinds.entry(format!("{}{}:{}", dest.split(':').next().unwrap(), if lim.is_some() { "+limit" } else { "" }, obs.split(' ').next().unwrap())).or_default() += 1;
         if samples.len() < 3 && rng.chance(1, 8) {
